@@ -139,6 +139,12 @@ def exhaustive_trees(maxn):
                         yield render.label(shape, tp, lambda i: Dt[dmap[i]], lambda i: i in empties)
 
 
+def empty_some_leaves(t, rng):
+    if not isinstance(t[1], list):
+        return (t[0], []) if rng.random() < 0.25 else t
+    return (t[0], [empty_some_leaves(c, rng) for c in t[1]])
+
+
 def model_tree(elem):
     """ET.Element from Aggregate.to_etree() -> reference tree (data escaped as on the wire)."""
     if len(elem) == 0 and elem.text:
@@ -178,6 +184,18 @@ def run_shard(ctx):
         if j % 60 == 0:
             ctx.sample({"sampled_tree_nodes": ref_sgml.count(tree), "rendering_head": text[:160]})
 
+    # (b') very deep and very wide trees (a recursive reader has a depth it cannot pass; a quadratic one a width)
+    for depth in ((150, 400) if ctx.shard % 4 == 0 else (150,)):
+        t = ("X" + str(depth), "leaf " + str(depth))
+        for i in range(depth):
+            t = (("A", "B1", "X.Y")[i % 3], [t] if i % 7 else [("NAME", "n" + str(i)), t, ("MEMO", "m")])
+        for r in range(3):
+            check_one(ctx, t, render.random_rendering(t, rng), {"deep": depth})
+        ctx.count("deep_trees")
+    wide = ("OFX", [("STMTTRN", [("FITID", str(i)), ("NAME", "n&amp;" + str(i))]) for i in range(3000)])
+    check_one(ctx, wide, render.random_rendering(wide, rng), {"wide": 3000})
+    ctx.count("wide_trees")
+
     # (c) element trees of generated model instances
     from vf.gen import instances
     from vf.oracles import ref_decl
@@ -200,6 +218,14 @@ def run_shard(ctx):
                 text = render.random_rendering(tree, rng)
                 check_one(ctx, tree, text, {"model": name, "seedstr": seedstr})
                 ctx.distinct(text)
+            # the same body with some data elements present but EMPTY (real OFX names under their real parents): an empty node is a node
+            hollow = empty_some_leaves(tree, random.Random(seedstr + "/hollow"))
+            if hollow != tree:
+                ctx.count("model_trees_with_emptied_elements")
+                for r in range(2):
+                    text = render.random_rendering(hollow, rng)
+                    check_one(ctx, hollow, text, {"model": name, "seedstr": seedstr, "hollow": True})
+                    ctx.distinct(text)
 
 
 def replay(ctx, case):
